@@ -13,6 +13,7 @@ datetime from the standard library.
 import base64
 import hashlib
 import json
+import os
 import tempfile
 from datetime import datetime, timezone, timedelta
 
@@ -36,8 +37,20 @@ def _sim_now():
     return datetime.fromtimestamp(R.seconds(), timezone.utc)
 
 
-# the only clock grid_manager.py reads; create_grid_manager_verifier looks the name up when the verifier is built
-gm_mod.current_datetime_with_zone = _sim_now
+class SimDateTime(datetime):
+    """datetime whose now() reads the simulated clock; the real current_datetime_with_zone() (the verifier's default clock)
+    runs on top of it, under a process time zone drawn per run."""
+    @classmethod
+    def now(cls, tz=None):
+        return cls.fromtimestamp(R.seconds(), tz)
+
+    @classmethod
+    def utcnow(cls):
+        return cls.fromtimestamp(R.seconds(), timezone.utc).replace(tzinfo=None)
+
+
+# the only clock grid_manager.py reads is datetime.now(...) inside current_datetime_with_zone()
+gm_mod.datetime = SimDateTime
 gm_mod.print = lambda *a, **k: None          # the default bad_cert callback prints each rejected certificate
 
 
@@ -61,7 +74,9 @@ CERT_KINDS = [("valid", 6), ("rogue", 2), ("other-server", 2), ("tamper-expiry",
               ("swap-sig", 1.5), ("unconfigured-gm", 1),
               # a genuine certificate followed by an edited copy carrying the same signature (the client has then already
               # verified that signature once)
-              ("genuine-then-edited-expiry", 1.5), ("genuine-then-edited-subject", 1.5)]
+              ("genuine-then-edited-expiry", 1.5), ("genuine-then-edited-subject", 1.5),
+              # a certificate entry the client cannot even parse
+              ("garbled", 1.0)]
 
 
 def gen_certs(ch, lab, nservers, ngm, horizon):
@@ -106,6 +121,9 @@ def gen_gm(seed, tier, focus):
             clients.append({"pref": ch.sample("config", ("pref", c), list(range(nservers)), ch.randint("config", ("npref", c), 0, min(2, nservers))),
                             "gms": ch.sample("config", ("gms", c), list(range(ngm)), ch.randint("config", ("ngms", c), 0, ngm)) if ngm else [],
                             "order": ch.shuffle("config", ("order", c), list(range(nservers)))})
+    for c_, cc_ in enumerate(clients):
+        # the same list spelled differently in each client's tahoe.cfg
+        cc_["prefsep"] = ch.pick("config", ("prefsep", c_), [",", ",", ", ", " , ", ",\n  "])
     ops = []
     nops = ch.randint(W, "nops", 4, 16 if tier == "quick" else 30)
     weights = [("query", 5), ("permitted", 4), ("advance", 3), ("to-expiry", 4), ("upload", 2.5), ("mcreate", 1.5), ("mwrite", 2),
@@ -136,7 +154,8 @@ def gen_gm(seed, tier, focus):
     # every case ends by looking at everything once more
     ops += [["permitted"], ["query", ch.bytes(W, "si-final", 16).hex()]]
     return {"engine": "gmsim", "seed": seed, "focus": focus,
-            "cfg": {"nservers": nservers, "ngm": ngm, "servers": servers, "clients": clients, "k": k, "n": n, "happy": 1,
+            "cfg": {"tz": ch.pick("config", "tz", ["UTC", "UTC", "XST8", "XST-8", "XST-5:30"]),
+                    "nservers": nservers, "ngm": ngm, "servers": servers, "clients": clients, "k": k, "n": n, "happy": 1,
                     "net": {"threads": ch.pick("config", "threads", ["sync", "sync", "async"]), "lat_profile": ch.pick("config", "lat", ["uniform", "heavy", "fifo"]), "jitter": 0.3}},
             "ops": ops, "faults": []}
 
@@ -187,6 +206,12 @@ class Certs(object):
             body0, sig = self._sign(gm, self.subject(other), spec["expires_us"], spec["tz"])           # genuine, names another server
             body = body0.replace(self.subject(other).encode(), self.subject(si).encode())
             return [{"certificate": body0.decode("utf-8"), "signature": b32(sig)}, {"certificate": body.decode("utf-8"), "signature": b32(sig)}]
+        elif kind == "garbled":
+            body, sig = self._sign(gm, self.subject(si), spec["expires_us"], spec["tz"])
+            return [{"certificate": body.decode("utf-8"), "signature": "!!not base32!!"},
+                    {"certificate": body.decode("utf-8")},
+                    {"certificate": body.decode("utf-8"), "signature": None},
+                    {"certificate": "{not json", "signature": b32(sig)}][spec["x"] % 4]
         elif kind == "tamper-subject":
             other = (si + 1 + spec["x"] % max(1, nsrv - 1)) % nsrv
             body0, sig = self._sign(gm, self.subject(other), spec["expires_us"], spec["tz"])
@@ -208,9 +233,13 @@ class Certs(object):
         if not gm_indexes:
             return True
         for cd in cert_dicts:
-            body = cd["certificate"].encode("utf-8")
-            s = cd["signature"].upper()
-            sig = base64.b32decode(s + "=" * ((8 - len(s) % 8) % 8))
+            try:
+                body = cd["certificate"].encode("utf-8")
+                s = cd["signature"].upper()
+                sig = base64.b32decode(s + "=" * ((8 - len(s) % 8) % 8))
+                json.loads(body)
+            except Exception:
+                continue            # not a certificate at all: it cannot grant anything
             for gi in gm_indexes:
                 try:
                     Ed25519PublicKey.from_public_bytes(self.gms[gi][1]).verify(sig, body)
@@ -229,6 +258,10 @@ def exec_gm(case):
     base = tempfile.mkdtemp(dir=child_tmp())
     R.reset_sim()
     viol, probes = [], {}
+    # the process's local time zone (the predicate must compare instants, whatever the local zone is)
+    import time as _time_mod
+    os.environ["TZ"] = cfg.get("tz", "UTC")
+    _time_mod.tzset()
 
     def probe(nm, c=1):
         probes[nm] = probes.get(nm, 0) + c
@@ -263,7 +296,7 @@ def exec_gm(case):
         for ci, cc in enumerate(cfg["clients"]):
             extra = ""
             if cc["pref"]:
-                extra += "peers.preferred = %s\n" % ",".join(g.servers[i].serverid.decode("ascii") for i in cc["pref"])
+                extra += "peers.preferred = %s\n" % cc.get("prefsep", ",").join(g.servers[i].serverid.decode("ascii") for i in cc["pref"])
             if cc["gms"]:
                 extra += "[grid_managers]\n" + "".join("gm%d = pub-v0-%s\n" % (gi, b32(certs.gms[gi][1])) for gi in cc["gms"])
             c = g.add_client(k=cfg["k"], happy=cfg["happy"], n=cfg["n"], connect=False, extra_cfg=extra)
@@ -271,8 +304,13 @@ def exec_gm(case):
             for i in cc["order"]:
                 ann = ann_of(i, cur_specs[i])
                 g.servers[i].announcement = (lambda ann=ann: ann)
-                g.connect(c, g.servers[i])
-                view[(ci, i)] = {"ann": ann, "connected": True}
+                try:
+                    g.connect(c, g.servers[i])
+                    view[(ci, i)] = {"ann": ann, "connected": True}
+                except Exception:
+                    # the client could not make sense of the announcement: it does not know this server at all
+                    view[(ci, i)] = {"ann": ann, "connected": False}
+                    probe("announcement-rejected-by-client")
 
         def ref_permitted(ci, i, now=None):
             return certs.permitted(cfg["clients"][ci]["gms"], i, view[(ci, i)]["ann"]["grid-manager-certificates"], now or _sim_now())
@@ -368,7 +406,9 @@ def exec_gm(case):
             now = _sim_now()
             for ci, c in enumerate(clients):
                 for i in range(nsrv):
-                    ns = c.storage_broker.servers[g.servers[i].serverid]
+                    ns = c.storage_broker.servers.get(g.servers[i].serverid)
+                    if ns is None:
+                        continue        # the client rejected this server's announcement outright: nothing can be uploaded there
                     try:
                         got = ns.upload_permitted()
                     except Exception as e:
@@ -459,7 +499,7 @@ def exec_gm(case):
                 down = [(a, b) for (a, b) in sorted(view) if not view[(a, b)]["connected"]]
                 if down and view[(ci, i)]["connected"]:
                     ci, i = down[(op[1] + op[2]) % len(down)]
-                if not view[(ci, i)]["connected"]:
+                if not view[(ci, i)]["connected"] and g.servers[i].serverid in clients[ci].storage_broker.servers:
                     g.reconnect(clients[ci], g.servers[i])
                     view[(ci, i)]["connected"] = True
                     probe("reconnect")
@@ -471,8 +511,14 @@ def exec_gm(case):
                 for ci in op[3]:
                     ci = ci % len(clients)
                     g.net.heal(clients[ci].sim_name, g.servers[i].name)
-                    g.connect(clients[ci], g.servers[i])
-                    view[(ci, i)] = {"ann": ann, "connected": True, "specs": op[2]}
+                    try:
+                        g.connect(clients[ci], g.servers[i])
+                        view[(ci, i)] = {"ann": ann, "connected": True, "specs": op[2]}
+                    except Exception:
+                        # an announcement the client cannot parse leaves its previous knowledge of the server in place
+                        probe("announcement-rejected-by-client")
+                        if g.servers[i].serverid not in clients[ci].storage_broker.servers:
+                            view[(ci, i)] = {"ann": ann, "connected": False, "specs": op[2]}
                 probe("reannounce")
             if viol:
                 break
